@@ -29,7 +29,12 @@ pub struct OpsConfigQueryListRequest {
 impl OpsConfigQueryListRequest {
     pub fn to_param(self, req: &HttpRequest) -> anyhow::Result<ConfigQueryParam> {
         let limit = self.page_size.unwrap_or(0xffff_ffff);
-        let offset = (self.page_no.unwrap_or(1) - 1) * limit;
+        // page number 0 is taken as the first page; an offset that does not fit is behind every config
+        let offset = self
+            .page_no
+            .unwrap_or(1)
+            .saturating_sub(1)
+            .saturating_mul(limit);
         let namespace_privilege = user_namespace_privilege!(req);
         let mut param = ConfigQueryParam {
             limit,
@@ -55,8 +60,9 @@ impl OpsConfigQueryListRequest {
         } else {
             return Err(anyhow::anyhow!("group or dataId can't empty"));
         }
-        let limit = self.page_size.unwrap_or(0xffff_ffff) as i64;
-        let offset = (self.page_no.unwrap_or(1) - 1) as i64 * limit;
+        let limit = self.page_size.unwrap_or(0xffff_ffff).min(i64::MAX as usize) as i64;
+        let page_index = self.page_no.unwrap_or(1).saturating_sub(1);
+        let offset = (page_index.min(i64::MAX as usize) as i64).saturating_mul(limit);
         let mut param = ConfigHistoryParam {
             limit: Some(limit),
             offset: Some(offset),
